@@ -1,8 +1,11 @@
 (* Props/C06.v — property C06 (zone files denote what RFC 1035 section 5 says).
    Only statements; each is closed by [exact] of a lemma proved in Proofs/.
-   The specification is Model/ZoneSpec.v (abstract zones, [denote], token
-   skeletons); the parser model is Model/Zone.v. *)
-From Dns Require Import Model.ZoneSpec Proofs.ZoneSpecProofs.
+   The specification is Model/ZoneSpec.v: abstract zones, [denote] (a fold over
+   origin, previous owner, $TTL value, last stated TTL, configured default),
+   token skeletons [sk_zone] (what the lexer hands over, positions, comments and
+   mnemonic spellings aside), $GENERATE templates.  The parser model is
+   Model/Zone.v, shared with C07. *)
+From Dns Require Import Model.ZoneSpec Proofs.ZoneProofs Proofs.ZoneSpecProofs.
 Open Scope N_scope.
 
 (* Relative names are completed with the current origin, @ is the origin,
@@ -24,3 +27,79 @@ Theorem ttl_units :
                       | None => None
                       end.
 Proof. exact string_to_ttl_spec. Qed.
+
+(* The parser refines the denotation.  For every abstract zone whose entries are
+   well formed (names valid, TTL texts meaningful and below 2^32, RDATA of the
+   family of its type) and every token list with the zone's skeleton, whatever
+   the positions, comments and spellings of mnemonics: the parser yields exactly
+   the records the zone denotes - relative names completed with the current
+   origin, @ the origin, an omitted owner the previous owner, an omitted TTL the
+   $TTL value else the most recently stated TTL else the configured default, an
+   omitted class IN, TTL and class in either order.  (Zones without a
+   denotation - no owner to repeat, no TTL to take - are outside: [denote] is
+   None for them.) *)
+Theorem zp_refines :
+  forall (fs_open os_open : bytes -> option bytes) (d : nat) (cf : cfg)
+         (origin : bytes) (default : option N) (es : list entry) (toks : list tok) (recs : list rr),
+    origin <> [] -> is_fqdn origin = true -> is_domain_name origin = true ->
+    Forall wf_entry es ->
+    Forall2 realizes toks (sk_zone es) ->
+    denote origin default es = Some recs ->
+    run_d fs_open os_open d cf origin
+          (match default with Some t => Some (mkTtl t false) | None => None end) toks None
+    = map ERec recs.
+Proof. exact zp_refines_tokens. Qed.
+
+(* $GENERATE: for a well-formed template (literal text without $ and backslash,
+   the bare $, ${...} blocks whose modifier parses and passes the offset guard)
+   the text handed to the sub parser is one line per iterator value start,
+   start+step, ... <= stop, with every $ and ${offset,width,base} replaced by
+   the value, formatted as the modifier says. *)
+Theorem generate_expand :
+  forall (tpl : list gpiece) (start stop step : Z),
+    wf_tpl start stop tpl -> (0 < step < two63)%Z -> (0 <= start <= stop)%Z -> (stop < two63)%Z ->
+    gen_bytes (render_tpl tpl) start stop step =
+    (flat_map (fun i => subst_tpl i tpl ++ [10])
+              (gen_values (gen_count start stop step) start stop step), None).
+Proof. exact generate_expands. Qed.
+
+(* ... and these are all the values of the range. *)
+Theorem generate_values :
+  forall (start stop step : Z),
+    (0 < step)%Z -> (0 <= start <= stop)%Z ->
+    length (gen_values (gen_count start stop step) start stop step) = gen_count start stop step /\
+    (forall v, In v (gen_values (gen_count start stop step) start stop step) ->
+               exists k : nat, (v = start + Z.of_nat k * step)%Z).
+Proof. exact gen_values_all. Qed.
+
+(* $INCLUDE: the origin argument of the directive is completed with the
+   includer's origin, and the includer's own origin and TTL state are what they
+   were ... *)
+Theorem include_keeps_origin :
+  forall (cf : cfg) (p : pst) (tD tB tF tB2 tO tNl : tok) (rest : list tok) (file o : bytes),
+    c_inc cf = true -> p_origin p <> [] -> wf_name o -> file <> [] ->
+    realizes tD (mkSk ZDirInclude [] 0) -> realizes tB sk_blank -> realizes tF (sk_str file) ->
+    realizes tB2 sk_blank -> realizes tO (sk_str o) -> realizes tNl sk_nl ->
+    exists p', zloop cf p XOwnerDir 0 (tD :: tB :: tF :: tB2 :: tO :: tNl :: rest)
+               = NInclude tF (complete (p_origin p) o) p' (tNl :: rest) /\
+               p_origin p' = p_origin p /\ p_defttl p' = p_defttl p.
+Proof. exact include_line. Qed.
+
+(* ... and the records of the file are spliced in: after the open come the
+   events of the file's parser (run under the stated origin), then the
+   includer continues in its own state. *)
+Theorem include_splice :
+  forall (fs_open os_open : bytes -> option bytes) (sub gen : sub_sig) (cf : cfg) (rerr : option perr)
+         (k : pst -> list tok -> list ev) (p : pst) (toks : list tok) (l : tok) (neworigin : bytes)
+         (p' : pst) (rest : list tok) (content : bytes),
+    zloop cf p XOwnerDir 0 toks = NInclude l neworigin p' rest ->
+    Nat.leb maxIncludeDepth (c_depth cf) = false ->
+    (if c_fs cf then fs_open (include_path (c_fs cf) (c_file cf) (t_text l))
+     else os_open (include_path (c_fs cf) (c_file cf) (t_text l))) = Some content ->
+    let path := include_path (c_fs cf) (c_file cf) (t_text l) in
+    let evs := sub (mkCfg path true (c_fs cf) false (S (c_depth cf))) neworigin (p_defttl p')
+                   (lex content) None in
+    failed evs = false ->
+    level_body fs_open os_open (Some sub) gen cf rerr k p toks
+    = EOpen (c_fs cf) path true (S (c_depth cf)) :: evs ++ k p' rest.
+Proof. exact include_splices. Qed.
